@@ -47,3 +47,36 @@ Proof.
   - intros s Hs d Hd. cbn in Hs. destruct Hs as [<-|[]]; cbn in Hd; destruct Hd as [<-|[]]; cbn; auto.
   - intro H. specialize (H s1 (or_introl eq_refl) 5 (or_introl eq_refl)). cbn in H. exact H.
 Qed.
+
+(* ... and why the snapshot worker asks the BACKEND, at that moment, whether a chunk is there (source fact: the only assignment to
+   [exists] in the worker is the backend's answer).  [bel] = what the session believes to be stored (a memo kept on the Repository
+   object across commands, the answer of an earlier command): chunks believed present are not uploaded. *)
+Definition snap_believing (bel : list (fam * dig)) (u : usr) (f : fam) (id : sid) (tab : list dig) (st : store) : store :=
+  {| chunks := chunks st ++ map (fun d => (f, d)) (filter (fun d => negb (memc (f, d) bel)) (nodup Nat.eq_dec tab));
+     snaps := {| s_id := id; s_fam := f; s_usr := u; s_tab := tab |} :: snaps st |}.
+
+Lemma snap_believing_the_store : forall u f id tab st,
+  snap_believing (chunks st) u f id tab st = fst (exec st (OSnap u f id tab)).
+Proof. reflexivity. Qed.
+
+(* a belief that holds of the store keeps every listed snapshot complete ... *)
+Lemma snap_with_sound_belief_safe : forall bel u f id tab st,
+  Inv st -> incl bel (chunks st) -> Inv (snap_believing bel u f id tab st).
+Proof.
+  intros bel u f id tab st HI Hb s Hs d Hd. cbn in Hs. destruct Hs as [<-|Hs].
+  - cbn in Hd |- *. apply in_or_app. destruct (memc (f, d) bel) eqn:E.
+    + left. apply Hb. apply memc_In. exact E.
+    + right. apply in_map_iff. exists d. split; [reflexivity|]. apply filter_In. split.
+      * apply nodup_In. exact Hd.
+      * rewrite E. reflexivity.
+  - cbn. apply in_or_app. left. exact (HI s Hs d Hd).
+Qed.
+
+(* ... a stale one (the chunk was deleted since, or its upload never succeeded) publishes a snapshot without its chunk *)
+Lemma snap_with_stale_belief_refuted :
+  exists bel u f id tab st, Inv st /\ ~ Inv (snap_believing bel u f id tab st).
+Proof.
+  exists [(0, 5)], 0, 0, 1, [5], empty_store. split.
+  - intros s [].
+  - intro H. specialize (H _ (or_introl eq_refl) 5 (or_introl eq_refl)). cbn in H. exact H.
+Qed.
